@@ -85,6 +85,11 @@ def cases(tier):
             for rk in ("sync", "async"):
                 yield {"kind": "stream", "sel": "tick(step: $s)", "vardefs": "($s: Int = 3)", "variables": variables,
                        "custom": {"Subscription.tick": "async"}, "n": n, "mode": "deferred", "resolver": rk}
+    # the source itself fails at event k: the failure must surface, not look like the end of the stream
+    for n in (1, 2, 3):
+        for k in range(n):
+            for mode in ("deferred", "immediate"):
+                yield {"kind": "stream", "sel": "ev { x }", "custom": {"Obj.x": "async"}, "n": n, "mode": mode, "resolver": "sync", "raise_at": k}
     # the same event OBJECT re-emitted after in-place mutation (identity-keyed memoisation must not leak between events)
     for n in (2, 3):
         for sel, custom in (("ev { x who { id ... on Obj { x } ... on Other { z } } }", {"Obj.x": "async"}),
@@ -102,18 +107,19 @@ def cases(tier):
             yield {"kind": "stream", "sel": "ev { x }", "custom": {"Obj.x": "async"}, "n": n, "mode": "immediate", "resolver": "sync", "none_at": k}
         for mode in ("falsy", "falsy-deferred"):
             yield {"kind": "stream", "sel": "ev { x }", "custom": {"Obj.x": "async"}, "n": n, "mode": mode, "resolver": "async"}
-    for name in ("two-fields", "two-fields-fragment", "no-subscription-resolver", "query-operation", "mutation-operation", "blocking-runtime", "threadpool-runtime"):
+    for name in ("two-fields", "two-fields-fragment", "typename-only", "no-subscription-resolver", "query-operation", "mutation-operation", "blocking-runtime", "threadpool-runtime"):
         yield {"kind": "refusal", "name": name}
 
 
 class Source:
     """async iterator over the events; each delivery is an external completion owned by the explorer"""
 
-    def __init__(self, world, loop, n, mode, none_at=None):
+    def __init__(self, world, loop, n, mode, none_at=None, raise_at=None):
         self.world, self.loop, self.n, self.mode = world, loop, n, mode
         self.k = 0
         self.pulls = 0
         self.none_at = none_at
+        self.raise_at = raise_at
         self.shared = None
 
     def __aiter__(self):
@@ -130,6 +136,8 @@ class Source:
             raise StopAsyncIteration
         self.world.event_index = k
         self.world.ev("event", k)
+        if self.raise_at == k:
+            raise SourceFailure("source failed at event %d" % k)
         if self.none_at == k:
             return None
         if self.mode == "same-object":
@@ -140,6 +148,10 @@ class Source:
                 _update_in_place(self.shared, _event(k))
             return self.shared
         return _event(k)
+
+
+class SourceFailure(Exception):
+    """an unexpected failure of the event source itself"""
 
 
 class FalsySource(Source):
@@ -210,7 +222,7 @@ def _body(case, overrides, ch):
     loop = VLoop()
     world.loop = loop
     cls = FalsySource if case["mode"].startswith("falsy") else Source
-    world.source = cls(world, loop, case["n"], case["mode"], case.get("none_at"))
+    world.source = cls(world, loop, case["n"], case["mode"], case.get("none_at"), case.get("raise_at"))
     schema = _schema(case["custom"], case["resolver"], case.get("sdl", "full"))
     dkey = (case["sel"], case.get("vardefs", ""))
     doc = _DOCS.get(dkey)
@@ -237,6 +249,11 @@ def _body(case, overrides, ch):
     finally:
         loop.finish()
     subs = [e for e in world.log if e[0] == "subscribe"]
+    if case.get("raise_at") is not None:
+        # the failure of the source must surface through the response stream, after the earlier results
+        return {"status": status, "results": [_obs_result(r) for r in kept], "exc": repr(value) if status == "exc" else None,
+                "pulls": world.source.pulls, "trace": loop.trace, "results_at_end": None, "subscribe_calls": None,
+                "source_failure": True}, world
     return {"status": status, "results": value if status == "ok" else None, "exc": repr(value) if status == "exc" else None,
             "pulls": world.source.pulls, "trace": loop.trace,
             # results observed again after the stream ended: a yielded result must not change afterwards
@@ -311,6 +328,14 @@ def _failure_sets(case, tier):
 
 
 def _compare(obs, ref, n):
+    if obs.get("source_failure"):
+        if obs["status"] in ("stuck", "horizon"):
+            return "never-ends", "stream did not terminate after the source failed"
+        if obs["status"] != "exc" or "SourceFailure" not in (obs["exc"] or ""):
+            return "source-failure-swallowed", "the source raised SourceFailure, the stream ended with status %s %s" % (obs["status"], obs["exc"])
+        if obs["results"] != ref[: len(obs["results"])] or len(obs["results"]) != obs["pulls"] - 1:
+            return "data-differs", "results before the failure %s expected %s" % (obs["results"], ref[: obs["pulls"] - 1])
+        return None, None
     if obs["status"] in ("stuck", "horizon"):
         return "never-ends", "stream did not terminate: %s" % obs["trace"][-12:]
     if obs["status"] != "ok":
@@ -369,6 +394,8 @@ def _refusal(name):
         text, expect = "subscription { ev { x } tick }", (ExecutionError,)
     elif name == "two-fields-fragment":
         text, expect = "subscription { ...F } fragment F on Subscription { ev { x } tick }", (ExecutionError,)
+    elif name == "typename-only":
+        text = "subscription { __typename }"
     elif name == "query-operation":
         text = "query { ev { x } }"
     elif name == "mutation-operation":
